@@ -39,7 +39,8 @@ Inductive action :=
 | AClose (g : nat)
 | AEnter | AExit
 | ARead (i : Z)
-| AWrite (i v : Z).
+| AWrite (i v : Z)
+| AAccessErr.        (* a[idx] / a[idx] = v for which NumPy raises: enter, raise, leave *)
 
 Inductive outcome :=
 | ONothing
@@ -140,6 +141,8 @@ Definition sched_step (s : sched) (a : action) : outcome * sched :=
   | AWrite i v =>
       let '(m, s1) := acquire s in
       if mem_nat m (sc_open s1) then (ONothing, release (set_data s1 (cset (sc_data s1) i v))) else (OCrash, s1)
+  | AAccessErr =>
+      let '(m, s1) := acquire s in (ORaise, release s1)
   end.
 
 Fixpoint sched_run (s : sched) (acts : list action) : list outcome * sched :=
